@@ -688,9 +688,50 @@ def _mm_write(d, files):
             f.write(v)
 
 
+_CAP = dict(on=False, in_def=0, found0=None, cands=None)
+
+
+def _install_capture():
+    """wrap _find_defining_names / _find_names (module globals looked up by find_references) to
+    record, per get_references call, the start set and the name set of every scanned token"""
+    from jedi.inference import references as R
+    if getattr(R, '_c05_wrapped', False):
+        return
+    orig_names, orig_def = R._find_names, R._find_defining_names
+
+    def key(n):
+        t = n.tree_name
+        if t is None:
+            return ('obj', repr(n))
+        try:
+            mp = str(n.get_root_context().py__file__())
+        except Exception:
+            mp = None
+        return (mp, t.start_pos[0], t.start_pos[1])
+
+    def find_names(module_context, tree_name):
+        r = orig_names(module_context, tree_name)
+        if _CAP['on'] and not _CAP['in_def']:
+            _CAP['cands'].append(sorted(set(key(n) for n in r), key=repr))
+        return r
+
+    def find_defining_names(module_context, tree_name):
+        _CAP['in_def'] += 1
+        try:
+            r = orig_def(module_context, tree_name)
+        finally:
+            _CAP['in_def'] -= 1
+        if _CAP['on']:
+            _CAP['found0'] = sorted(set(key(n) for n in r), key=repr)
+        return r
+    R._find_names, R._find_defining_names = find_names, find_defining_names
+    R._c05_wrapped = True
+
+
 def _mm_task(arg):
     import jedi
     import pathlib
+    _install_capture()
     base, idx, P = arg
     root = os.path.join(base, 'p%d' % idx)
     files = P.files()
@@ -735,7 +776,14 @@ def _mm_task(arg):
         rec = dict(tok=key(t), expected=sorted(comp[P.find(t['var'])]))
         try:
             s = script_for(d0, proj, t['mod'] + '.py', scripts)
-            rec['refs'] = canon(s.get_references(t['line'], t['col']), d0)
+            _CAP.update(on=True, in_def=0, found0=None, cands=[])
+            try:
+                res = s.get_references(t['line'], t['col'])
+            finally:
+                _CAP['on'] = False
+            rec['refs'] = canon(res, d0)
+            rel = lambda k: (os.path.relpath(k[0], d0), k[1], k[2]) if k[0] not in ('obj', None) else tuple(k)
+            rec['cap'] = dict(found0=[rel(k) for k in (_CAP['found0'] or [])], cands=[[rel(k) for k in c] for c in _CAP['cands']])
         except Exception as e:
             rec['exc'] = common.exc_sig(e)
             out['toks'].append(rec)
